@@ -473,6 +473,7 @@ class _Track:
         self.pmax_run = 0.0
         self.calls = 0
         self.singular = False
+        self.jacobians = []  # process Jacobians of the steps of the current tick, in call order
 
     def note(self, out):
         self.pmax_run = max(self.pmax_run, float(np.max(np.abs(out[1].data))) if out[1].data.size else 0.0)
@@ -483,8 +484,29 @@ class _Track:
     def make_reading(self, key, **kw):
         return self.pe.make_reading(key, **kw)
 
+    def amplification(self):
+        """max over j of ||G_k ... G_(j+1)||: how much a rounding error injected after step j has grown by the end of the tick
+        (a trajectory that contracts on the way out and expands on the way back hides this from an end-to-end perturbation)"""
+        if any(g is None for g in self.jacobians):
+            return float("inf")
+        worst, S_ = 1.0, None
+        for G_ in reversed(self.jacobians):
+            S_ = G_ if S_ is None else S_ @ G_
+            if not np.all(np.isfinite(S_)):
+                return float("inf")
+            worst = max(worst, float(np.linalg.norm(S_, 2)))
+        return worst
+
     def process_model(self, dt, state, covariance, control=None):
         self.calls += 1
+        if self.ref is not None:
+            try:
+                x_ = {nm: float(state.data[j, 0]) for j, nm in enumerate(self.names)}
+                u_ = None if control is None else {c: float(control.data[j, 0]) for j, c in enumerate(self.ref.U)}
+                parts = self.ref.predict(dt, x_, np.array(covariance.data, dtype=float), u_)
+                self.jacobians.append(None if parts is None else np.array(parts[2]["G"], dtype=float))
+            except Exception:  # noqa: BLE001
+                self.jacobians.append(None)
         self.note((state, covariance))
         return self.note(self.pe.process_model(dt, state, covariance, control) if control is not None else self.pe.process_model(dt, state, covariance))
 
@@ -609,10 +631,11 @@ def _lockstep(schedule, leg, res):
                         groups.append((cur_t, xf(r["t"])))
                         cur_t = xf(r["t"])
                     groups.append((cur_t, xf(op["t_out"])))
-                    expect.append(("tick", i, out, {"n": len(readings), "pmax": track.pmax, "xmax": track.xmax, "sens": sens + (track.calls, eps_abs), "singular_S": track.singular, "groups": groups, "sensors": [(sensors.index(r["sensor"]), r["rid"]) for r in op["readings"]]}))
+                    expect.append(("tick", i, out, {"n": len(readings), "pmax": track.pmax, "xmax": track.xmax, "sens": sens + (track.calls, eps_abs), "singular_S": track.singular, "amp": track.amplification(), "groups": groups, "sensors": [(sensors.index(r["sensor"]), r["rid"]) for r in op["readings"]]}))
                     track.pmax = track.xmax = 0.0
                     track.calls = 0
                     track.singular = False
+                    track.jacobians = []
                     pmax_run = max(pmax_run, track.pmax_run)
                     st, cov = mf.state, mf.covariance  # what the python runtime holds (direct ops continue from there)
                     if readings:
@@ -742,6 +765,11 @@ def _compare(schedule, expect, out_lines, res, n, S):
             res.stats[f"probe:tick_readings={min(extra['n'], 3)}"] += 1
             if extra.get("singular_S"):
                 res.stats["probe:tick_not_compared_singular_S"] += 1
+                diverged = True
+            elif extra.get("amp", 1.0) * 1e-15 * (1.0 + extra["xmax"]) > 0.5 * TOL * (1.0 + (float(np.max(np.abs(xs))) if xs.size else 0.0)) or extra.get("amp", 1.0) ** 2 * 1e-15 * (1.0 + extra["pmax"]) > 5 * TOL * (1.0 + (float(np.max(np.abs(Ps))) if Ps.size else 0.0)):
+                # domain guard (well-conditioned inputs): the product of the process Jacobians along this tick amplifies a rounding
+                # error injected on the way by more than the tolerance leaves room for
+                res.stats["probe:tick_not_compared_ill_conditioned"] += 1
                 diverged = True
             elif diverged:
                 # the two persistent managed filters run on from their OWN estimates, and those already differed by more than
